@@ -15,13 +15,15 @@ pub mod drive;
 
 pub mod h {
     pub mod c03;
+    pub mod dbg;
     pub mod c12;
+    pub mod c13;
 }
 
 use nd::FileNd;
 
 pub fn lookup(name: &str) -> Option<fn(&mut FileNd)> {
-    let tables: &[&[(&str, fn(&mut FileNd))]] = &[h::c03::TABLE, h::c12::TABLE];
+    let tables: &[&[(&str, fn(&mut FileNd))]] = &[h::c03::TABLE, h::c12::TABLE, h::c13::TABLE, h::dbg::TABLE];
     for t in tables {
         for (n, f) in t.iter() {
             if *n == name {
@@ -33,6 +35,6 @@ pub fn lookup(name: &str) -> Option<fn(&mut FileNd)> {
 }
 
 pub fn all_names() -> Vec<&'static str> {
-    let tables: &[&[(&str, fn(&mut FileNd))]] = &[h::c03::TABLE, h::c12::TABLE];
+    let tables: &[&[(&str, fn(&mut FileNd))]] = &[h::c03::TABLE, h::c12::TABLE, h::c13::TABLE, h::dbg::TABLE];
     tables.iter().flat_map(|t| t.iter().map(|(n, _)| *n)).collect()
 }
